@@ -5,7 +5,7 @@ cd "$(dirname "$0")/.."
 p=$1; props=${2:-$p}; src=${SEED_SRC:-/tmp/seed}; suffix=${SEED_SUFFIX:-}
 for x in A B; do
   [ -f $src/$p/out/patch_$x.diff ] || continue
-  y=$x; if [ "$suffix" = "2" ]; then if [ $x = A ]; then y=C; else y=D; fi; fi; if [ "$suffix" = "3" ]; then if [ $x = A ]; then y=E; else y=F; fi; fi; if [ "$suffix" = "4" ]; then if [ $x = A ]; then y=G; else y=H; fi; fi; if [ "$suffix" = "5" ]; then if [ $x = A ]; then y=I; else y=J; fi; fi; if [ "$suffix" = "6" ]; then if [ $x = A ]; then y=K; else y=L; fi; fi; if [ "$suffix" = "7" ]; then if [ $x = A ]; then y=M; else y=N; fi; fi; if [ "$suffix" = "8" ]; then if [ $x = A ]; then y=O; else y=P; fi; fi; if [ "$suffix" = "9" ]; then if [ $x = A ]; then y=Q; else y=R; fi; fi
+  y=$x; if [ "$suffix" = "2" ]; then if [ $x = A ]; then y=C; else y=D; fi; fi; if [ "$suffix" = "3" ]; then if [ $x = A ]; then y=E; else y=F; fi; fi; if [ "$suffix" = "4" ]; then if [ $x = A ]; then y=G; else y=H; fi; fi; if [ "$suffix" = "5" ]; then if [ $x = A ]; then y=I; else y=J; fi; fi; if [ "$suffix" = "6" ]; then if [ $x = A ]; then y=K; else y=L; fi; fi; if [ "$suffix" = "7" ]; then if [ $x = A ]; then y=M; else y=N; fi; fi; if [ "$suffix" = "8" ]; then if [ $x = A ]; then y=O; else y=P; fi; fi; if [ "$suffix" = "9" ]; then if [ $x = A ]; then y=Q; else y=R; fi; fi; if [ "$suffix" = "10" ]; then if [ $x = A ]; then y=S; else y=T; fi; fi
   mkdir -p seeded/$p-$y
   cp $src/$p/out/patch_$x.diff seeded/$p-$y/patch.diff; cp $src/$p/out/demo_$x.py seeded/$p-$y/demo.py
   cp $src/$p/out/notes_$x.md seeded/$p-$y/notes.md 2>/dev/null
